@@ -92,6 +92,9 @@ structure GenFormat where
   /-- per algorithmic function: width of its return type and, for each `memset` it contains,
       the element size its destination pointer arithmetic is scaled by -/
   algoFacts   : List (String × Nat × List Nat)
+  /-- per algorithmic function: the pointer parameters through which it (syntactically)
+      stores -/
+  algoWrites  : List (String × List String)
   statics     : List (String × String × Bool)  -- (object, type, const-qualified) with static storage
   header      : String                   -- the format's public header
   /-- constants the C compiler evaluates in a TU that includes just that header:
